@@ -313,7 +313,7 @@ class PDB(Spec):
         _title_axis(),
         ("bonds", ["last-atoms", "none", "one", "few", "ten", "hub", "chain"]),
         ("atffparams", ["none", "attypes", "restypes+resnums", "all"]),
-        ("extra", ["none", "occupancies+bfactors", "chainids", "compound", "compound-multiline", "all"]),
+        ("extra", ["none", "occupancies+bfactors", "chainids", "compound", "compound-multiline", "compound-14-lines", "all"]),
     ]
 
     def build(self, case, seed):
@@ -346,6 +346,8 @@ class PDB(Spec):
             ex["compound"] = "MOL_ID: 1;"
         if case["extra"] == "compound-multiline":
             ex["compound"] = "MOL_ID: 1;\nMOLECULE: WATER;\nCHAIN: A;"
+        if case["extra"] == "compound-14-lines":  # continuation numbers 2..14 (two digits from the tenth line on)
+            ex["compound"] = "\n".join(f"MOL_ID: {i // 3 + 1};" if i % 3 == 0 else f"MOLECULE: PART {i};" if i % 3 == 1 else f"CHAIN: {'ABCDE'[i // 3]};" for i in range(14))
         kw["extra"] = ex
         return IOData(**kw), {}, {}
 
